@@ -272,6 +272,13 @@ func (c *CEnv) ident(e *CE, hint *Value) Value {
 	switch name {
 	case "result":
 		if !c.hasResult {
+			// inside the body (loop invariant, call-site assertion) "result" can only be a
+			// source-level variable of that name
+			if c.lookup != nil {
+				if v, ok := c.lookup(name); ok {
+					return v
+				}
+			}
 			c.fail("result not available")
 		}
 		return c.result
